@@ -66,6 +66,10 @@ MUTATIONS = [
     ("GkdiClock.tla", "l1 |-> (t \\div (Fan * Base)) % Fan", "l1 |-> (t \\div (Fan * Base + 1)) % Fan", "GkdiClock", "MC_GkdiClock.cfg", None),
     ("Blob.tla", "ELSE IF \"integrity\" \\in e THEN {<<\"error\">>}", "ELSE IF \"integrity\" \\in e THEN {<<\"plain\", \"forged\">>}", "MC_Blob", "MC_Blob_tamper.cfg", None),
     ("Blob.tla", "nonce == draws + 2", "nonce == 2", "MC_Blob", "MC_Blob_fresh.cfg", None),
+    ("Gkdi.tla", "CoversReq == dl0 = 0 /\\ Covers(env, r1, r2)", "CoversReq == Covers(env, r1, r2)", "MC_Gkdi", "MC_Gkdi_live.cfg", None),
+    ("OnlineFaults.tla", "  /\\ open' = {}\n  /\\ Finish(\"error\")", "  /\\ open' = {}\n  /\\ Finish(\"ok\")", "OnlineFaults", "MC_OnlineFaults.cfg", None),
+    ("OnlineFaults.tla", "          THEN /\\ cache' = \"key\" /\\ Finish(\"ok\") /\\ UNCHANGED <<i>>", "          THEN /\\ cache' = \"empty\" /\\ Finish(\"ok\") /\\ UNCHANGED <<i>>", "OnlineFaults", "MC_OnlineFaults.cfg", None),
+    ("RpcBind.tla", "Accepted(res, offered) == {c \\in offered : res[c + 1] = \"acc\"}", "Accepted(res, offered) == {c \\in offered : res[c + 1] \\in {\"acc\", \"nack\"}}", "MC_RpcBind", "MC_RpcBind.cfg", None),
     ("Kek.tla", "DecKek(h, mode, privLenBits) ==\n  IF mode = \"nonce\" THEN NonceKek(h) ELSE KekFromShared(h, mode, Shared(mode, PrivTerm(h, mode, privLenBits), <<\"Eph\">>))",
      "DecKek(h, mode, privLenBits) ==\n  IF mode = \"nonce\" THEN NonceKek(h) ELSE KekFromShared(h, \"DH\", Shared(mode, PrivTerm(h, mode, privLenBits), <<\"Eph\">>))", "MC_Kek", "MC_Kek.cfg", None),
 ]
